@@ -253,18 +253,18 @@ func baselineConfig() simrt.Config {
 }
 
 type workerOut struct {
-	Property   string          `json:"property"`
-	Seed       uint64          `json:"seed"`
-	From       int             `json:"from"`
-	To         int             `json:"to"`
-	Race       bool            `json:"race_build"`
-	WallS      float64         `json:"wall_s"`
-	Agg        *Agg            `json:"agg"`
-	Distinct   int             `json:"distinct_schedules"`
-	Nontrivial int             `json:"distinct_nontrivial_schedules"`
-	Violations []violationOut  `json:"violations"`
-	SiteHits   map[string]uint32 `json:"site_hits"`
-	Infra      string          `json:"infrastructure_error,omitempty"`
+	Property   string               `json:"property"`
+	Seed       uint64               `json:"seed"`
+	From       int                  `json:"from"`
+	To         int                  `json:"to"`
+	Race       bool                 `json:"race_build"`
+	WallS      float64              `json:"wall_s"`
+	Agg        *Agg                 `json:"agg"`
+	Distinct   int                  `json:"distinct_schedules"`
+	Nontrivial int                  `json:"distinct_nontrivial_schedules"`
+	Violations []violationOut       `json:"violations"`
+	SiteHits   map[string]uint32    `json:"site_hits"`
+	Infra      string               `json:"infrastructure_error,omitempty"`
 	KnownHits  map[string]*knownHit `json:"known_hits,omitempty"`
 }
 
